@@ -172,9 +172,13 @@ def run(ctx):
         expected_seq = [k for k in donors_ranked for _ in range(sizes[k] // m - 1)]
         used = [d for d, _ in order]
         rec_order = [r for _, r in order]
-        for (n, pick) in draws:
-            if len(pick) != m or len(set(pick)) != m or any(not (0 <= x < n) for x in pick):
-                raise RuntimeError("random.sample assumption violated")
+        # the refills are RECONSTRUCTED from the labellings the implementation assigned; when they do not look like "m
+        # distinct members of one donor moved per refill" that is the implementation's doing (e.g. labels written in
+        # another way), not a harness fault: the direct oracle below judges the outcome, the model comparison (which
+        # needs the recorded draws) is skipped for this case
+        draws_ok = all(len(pick) == m and len(set(pick)) == m and all(0 <= x < n for x in pick) for (n, pick) in draws)
+        if not draws_ok:
+            ctx.count("refills_not_reconstructible")
         # ---- direct oracle
         if not needy:
             if err is not None or out is not st:
@@ -215,6 +219,15 @@ def run(ctx):
             for p in probs:
                 ctx.violation("impl-violation", p, dict(c, new=new, used=used), {"site": "repop-clause"})
         # ---- model line
+        if not draws_ok:
+            if err is None and out is not None:
+                new_ = [int(x) for x in out.point_labels]
+                if len(new_) != len(labels) or any(not (0 <= x < K) for x in new_):
+                    ctx.violation("impl-violation", "points lost or labels out of range", dict(c, new=new_), {"site": "repop-clause"})
+            impl.append(None)
+            lines.append(f"needy {K} {show_list(labels)}")
+            ctx.case((tuple(c["sizes"]) if "sizes" in c else tuple(labels), m, tuple(spreads)), nontrivial=bool(needy))
+            continue
         impl.append((c, err, out, used, rec_order, [d[1] for d in draws]))
         order_for_model = rec_order + [k for k in needy if k not in rec_order]
         lines.append(f"repop {K} {m} {show_list(spreads, lambda x: frac_str(Fraction(x)))} {show_list(order_for_model)} "
